@@ -144,7 +144,7 @@ pub fn verify_rejects_tamper(M: usize, F: usize) {
     let kind_ok = matches!(r, Err(PE::CryptoError));
     let untouched = tok[..] == beforeb[..T];
     vcheck_all!(
-        (rejected, "[C02] a signed token with any single flipped bit, a changed footer or another key is rejected"),
+        (rejected, "[C02][C12] a signed token with any single flipped bit, a changed footer or another key is rejected"),
         (!rejected || kind_ok, "[C12] a signature failure is CryptoError, whatever the message bytes"),
         (untouched, "[C12] verification never modifies the payload"),
     );
